@@ -8,42 +8,39 @@ PROP = dict(
     technique=("Lean 4 theorems over an executable model of LoadDatabaseWithFallback (error chains, decision table, retry loop, back-off over exact "
                "rationals, fallback ladder); decision table / retry predicates / ladder order / built-in databases / default configuration regenerated "
                "from the source; differential correspondence with the real loader over the complete file-fault table; independent monitor on the real outputs"),
-    level_text=("Kernel-checked theorems (WtfModel/Props/C15.lean) over a model of recovery.LoadDatabaseWithFallback, for every retry configuration "
-                "(attempts, base delay, cap: any integers; factor: any rational), every state of the backup file and every sequence of load attempts "
-                "(which covers every combination of faults on main and personal file, also faults that change between attempts): with at least one "
-                "permitted attempt the result is a database and no error, namely main entries followed by notebook entries exactly when the main file "
-                "loads and the notebook loads or is absent, otherwise a non-empty built-in list; a missing or permission-denied main file (or a "
-                "permission-denied notebook beside a good main file) is tried exactly once; never more attempts than configured, exactly that many "
-                "for persistent directory / malformed / other read faults; the sleeps are calculateDelay(1..attempts-1), never above the cap, and "
-                "non-decreasing and non-negative for factor >= 1 and non-negative base and cap; k < maxAttempts transient failures are survived after "
-                "k+1 attempts.  The decision table of NewDatabaseErrorWithContext, the predicates (errors.Is vs os.IsNotExist) and error types used by "
-                "shouldRetry, the ladder order, the embedded / minimal command lists and DefaultRetryConfig are regenerated from the source on every run "
-                "and the theorems are re-checked against them; loop, delay formula, loader and ladder shapes are asserted by the translator.  The model "
-                "is tied to the code by running the real LoadDatabaseWithFallback (attempts counted exactly by the verif observer) over the complete "
-                "6x6x6 table of file faults {missing, permission-denied, directory, malformed, unreadable (symlink loop), good} on main x personal x "
-                "backup for sampled retry configurations, plus transient-fault, excluded-configuration and error-chain streams."),
+    level_text=("Kernel-checked theorems (WtfModel/Props/C15.lean) over a model of recovery.NewDatabaseRecovery(cfg).LoadDatabaseWithFallback, for EVERY "
+                "retry configuration the caller may pass (attempts, base delay, cap: any integers; factor: any rational, +-Inf or NaN -- the model includes "
+                "the sanitisation done by NewDatabaseRecovery), every state of the backup file and every sequence of load attempts (which covers every "
+                "combination of faults on main and personal file, also faults that change between attempts): the result is a database and no error, "
+                "namely main entries followed by notebook entries exactly when the main file loads and the notebook loads or is absent, otherwise a "
+                "non-empty built-in list; a missing or permission-denied main file (or a permission-denied notebook beside a good main file) is tried "
+                "exactly once; at least one and never more attempts than configured, exactly that many for persistent directory / malformed / other "
+                "read faults; the sleeps are calculateDelay(1..attempts-1), non-decreasing, non-negative and never above the configured cap; k transient "
+                "failures below the permitted number of attempts are survived after k+1 attempts.  The decision table of NewDatabaseErrorWithContext, the "
+                "predicates (errors.Is vs os.IsNotExist) and error types used by shouldRetry, the ladder order, the embedded / minimal command lists and "
+                "DefaultRetryConfig are regenerated from the source on every run and the theorems are re-checked against them; the sanitisation, loop, "
+                "delay formula (incl. NaN guard), loader and ladder shapes are asserted by the translator.  The model is tied to the code by running the "
+                "real LoadDatabaseWithFallback (attempts counted exactly by the verif observer) over the complete 6x6x6 table of file faults {missing, "
+                "permission-denied, directory, malformed, unreadable (symlink loop), good} on main x personal x backup for sampled retry configurations, "
+                "plus transient-fault, nonsensical-configuration and error-chain streams."),
     level_note=("Trusted: Lean kernel; axioms propext/Classical.choice/Quot.sound only; the translator (xlate/x_recovery.go) and its shape assertions; the "
                 "harness (EACCES is obtained by setfsuid(65534) on the locked thread because the sandbox runs as root; transient faults are produced by "
                 "rewriting files from the attempt observer; stdout is redirected during the call); os / syscall / yaml.v3 error texts and errors.Is / "
                 "os.IsNotExist semantics as exercised by the correspondence; float64 rounding in calculateDelay is not modelled (exact rationals, "
-                "compared with 1 ns / 1e-9 tolerance); NaN / infinite factors and delays beyond the int64 range are outside the model; database paths "
-                "are assumed not to contain the decision table's needles ('permission denied', ...).  `total_partial` needs MaxAttempts >= 1 and "
-                "`delays_partial` needs factor >= 1, base >= 0 (witness theorems show the unrestricted statements are false; the CLI's "
-                "DefaultRetryConfig satisfies the hypotheses: theorem default_config_ok + translator assertion cli:default-config)."),
+                "compared with 1 ns / 1e-9 tolerance; overflow of the power to +Inf is modelled at the threshold 2^1024, values near that threshold are "
+                "not generated); database paths are assumed not to contain the decision table's needles ('permission denied', ...).  The unsanitised_* "
+                "theorems record what the step functions do on a configuration that bypassed NewDatabaseRecovery (why each clamp is needed)."),
     design_ref="DESIGN.md section 6, C15",
     rule=("stream `table`: for each sampled retry configuration (attempts 1-5, microsecond delays, factor from a pool) the COMPLETE table of 6x6x6 "
           "file-fault combinations on main x personal x backup is executed on the real loader (exhaustive=true refers to this finite table; "
-          "configurations are sampled); streams `transient` (files repaired after j attempts), `excluded` (MaxAttempts <= 0, factor < 1, negative "
-          "delays), `errs` (LoadDatabaseWithPersonal, shouldRetry on synthetic error chains, decision table on synthetic messages), `default` "
+          "configurations are sampled); streams `transient` (files repaired after j attempts), `excluded` (configurations NewDatabaseRecovery must sanitise: "
+          "MaxAttempts <= 0, factor < 1 / NaN / -Inf, negative delays, zero base with overflowing factor, +Inf factor), `errs` (LoadDatabaseWithPersonal, shouldRetry on synthetic error chains, decision table on synthetic messages), `default` "
           "(DefaultRetryConfig).  evaluations = op lines executed on the real code; a load is non-trivial if at least one of the three files is faulty "
           "or flaky; distinct = distinct (configuration line, op line) pairs"),
     assumptions=[
         "database paths do not contain one of the decision table's needles (the model prints causes with the path replaced by P)",
-        "BackoffFactor is a finite float64 and base*factor^(n-1) stays inside the int64 range when negative (NaN / Inf / out-of-range conversion not modelled)",
-        "BaseDelay == 0 together with BackoffFactor^(attempt-1) >= 2^1024 (float64 overflow: 0*Inf = NaN, converted to MinInt64 on amd64) is outside the model; "
-        "it is executed on the real code in the `excluded` stream and reported as an EXCLUDED-POINT",
-        "float64 rounding of calculateDelay is not modelled: delays are compared with 1 ns / 1e-9 tolerance",
-        "total_partial assumes MaxAttempts >= 1; delays_partial assumes factor >= 1 and base >= 0 (CLI configuration satisfies both: default_config_ok)",
+        "float64 rounding of calculateDelay is not modelled: delays are compared with 1 ns / 1e-9 tolerance; math.Pow overflows to +Inf exactly at 2^1024 in the model",
+        "a DatabaseRecovery is only ever built by NewDatabaseRecovery (translator assertion NewDatabaseRecovery:only-constructor)",
     ],
     trusted_extra=["setfsuid(2)-based EACCES injection and the attempt-observer file rewriting in harness/dom_retry.go",
                    "hook recovery.VerifAttemptObserver / VerifCalculateDelay (in /repo) and VerifShouldRetry (harness/hooks/internal-recovery__verif_c15.go)"],
@@ -51,15 +48,16 @@ PROP = dict(
 )
 
 THEOREMS = ["Wtf.C15." + t for t in (
-    "embedded_nonempty", "minimal_nonempty", "default_config_ok", "fallback_builtin", "total_partial", "real", "real_notebook_absent",
-    "real_only_if", "once", "once_notebook_denied", "at_most", "exactly_max", "delays_exact", "delays_partial", "transient",
-    "nonpositive_max_attempts", "total_fails_without_hypothesis", "delays_decrease_factor_below_one", "delays_decrease_negative_base")]
+    "embedded_nonempty", "minimal_nonempty", "default_config_ok", "sanitize_keeps_sane", "sanitize_sane", "fallback_builtin", "total", "real",
+    "real_notebook_absent", "real_only_if", "once", "once_notebook_denied", "at_most", "exactly_max", "delays", "transient",
+    "unsanitised_nonpositive_max_attempts", "unsanitised_factor_below_one", "unsanitised_negative_base", "sanitised_examples")]
 
 ASSERTIONS = ["recovery:" + s for s in (
     "error-types", "AppError.Unwrap", "classify:func", "classify:prologue", "classify:switch", "classify:default", "classify:has-default",
     "LoadDatabase:func", "LoadDatabase:shape", "LoadDatabaseWithPersonal:func", "LoadDatabaseWithPersonal:shape",
     "DefaultRetryConfig:func", "DefaultRetryConfig:values", "loadWithRetry:func", "loadWithRetry:shape", "loadWithRetry:observer-first",
     "shouldRetry:func", "shouldRetry:shape", "calculateDelay:func", "calculateDelay:shape",
+    "NewDatabaseRecovery:func", "NewDatabaseRecovery:shape", "NewDatabaseRecovery:only-constructor",
     "ladder:func", "ladder:primary", "ladder:strategies", "ladder:loop", "ladder:exhausted",
     "embedded:func", "embedded:literal", "embedded:always-succeeds", "minimal:func", "minimal:literal", "minimal:always-succeeds",
     "backup:func", "backup:shape", "cli:default-config", "all")]
@@ -146,19 +144,6 @@ def run(ctx):
             ctx.oblige("coverage:transient-recovery-exercised", "coverage", rec > 0, "%d loads recovered the real database after transient failures" % rec)
         if mode == "excluded":
             d = ctx.cov["distribution"]
-            for k, what in (("cfg.nonpositive-max-attempts", "MaxAttempts <= 0: nil database and nil error (monitor class nonpositive-max-attempts)"),
-                            ("excluded.factor-below-one.delays-decrease", "BackoffFactor < 1: the waits decrease (model agrees; theorem delays_decrease_factor_below_one)"),
-                            ("excluded.negative-base.delays-decrease", "BaseDelay < 0: the (negative) waits decrease (model agrees; theorem delays_decrease_negative_base)"),
-                            ("excluded.zero-base-float-overflow.nan-delay", "BaseDelay == 0 and BackoffFactor^(attempt-1) overflows float64: 0*Inf = NaN, "
-                             "time.Duration(NaN) = MinInt64 on amd64, a negative 'wait' (outside the rational model; monitor class delay-nan-zero-base-float-overflow under C15_STRICT=1)")):
-                n = d.get(name + "." + k, 0)
-                if n:
-                    ctx.log("EXCLUDED-POINT observed on the real code in %d configurations: %s" % (n, what))
-    # one replayable example per hit class is enough in the evidence; keep the list short
-    seen, kept = set(), []
-    for h in ctx.hits:
-        if h["cls"] in seen and h["cls"] == "nonpositive-max-attempts":
-            continue
-        seen.add(h["cls"])
-        kept.append(h)
-    ctx.hits = kept
+            kinds = ["cfg.nonpositive-max-attempts", "cfg.factor-below-one-or-nan", "cfg.negative-base", "cfg.zero-base-float-overflow"]
+            got = {k: d.get(name + "." + k, 0) for k in kinds}
+            ctx.oblige("coverage:sanitised-configurations-exercised", "coverage", all(v > 0 for v in got.values()), str(got))
